@@ -1393,11 +1393,17 @@ class Frame:
                 finally:
                     self.env = saved
             return out
-        if len(gens) == 1 and not gens[0].ifs and isinstance(gens[0].iter, ast.Name):
-            try:
-                src = self.load_name(gens[0].iter.id)
-            except (KeyError, Unsupported):
-                src = None
+        if len(gens) == 1 and not gens[0].ifs and (isinstance(gens[0].iter, ast.Name) or (
+                isinstance(gens[0].iter, ast.Call) and isinstance(gens[0].iter.func, ast.Attribute) and gens[0].iter.func.attr == "arange")):
+            if isinstance(gens[0].iter, ast.Name):
+                try:
+                    src = self.load_name(gens[0].iter.id)
+                except (KeyError, Unsupported):
+                    src = None
+            else:
+                src = self.eval(gens[0].iter)          # np.arange(...): pure, evaluating it here and again on the generic path is harmless
+                if not (isinstance(src, Arr) and src.ndim == 1 and T.is_sym(src.shape[0]) and T.is_sym(T.simp(src.shape[0]))):
+                    src = None
             if isinstance(src, Arr) and src.ndim >= 1 and T.is_sym(src.shape[0]) and T.is_sym(T.simp(src.shape[0])):
                 # [f(row) for row in <array with a symbolic number of rows>]
                 from . import npmodel, lazyseq
